@@ -66,7 +66,7 @@ func init() {
 		Level: "proof",
 		Funcs: []string{"tcell.(*CellBuffer).Size", "tcell.(*CellBuffer).GetContent", "tcell.(*CellBuffer).Dirty", "tcell.(*CellBuffer).SetDirty",
 			"tcell.(*CellBuffer).Invalidate", "tcell.(*CellBuffer).LockCell", "tcell.(*CellBuffer).UnlockCell", "tcell.(*CellBuffer).Fill",
-			"tcell.(*CellBuffer).SetContent", "tcell.(*CellBuffer).Resize"},
+			"tcell.(*CellBuffer).SetContent", "tcell.(*CellBuffer).Resize", "tcell.cellWidth"},
 		Trusted: []string{"go-runewidth RuneWidth is a total function with values 0..2 (assumed contract runeWidth)",
 			"reflect.DeepEqual on two []rune is element-wise equality plus equal nil-ness (intrinsic model)"},
 		Assume: []string{"Resize is called with w,h >= 0 (a negative size panics in make; precondition derived from the call sites)"},
@@ -123,11 +123,12 @@ func init() {
 	reg(&PropDef{
 		ID:     "C06",
 		Level:  "other",
+		Funcs:  []string{"tcell.(*tScreen).finish", "tcell.(*tScreen).Show", "tcell.(*tScreen).Sync", "tcell.(*baseScreen).ChannelEvents", "tcell.(*baseScreen).PollEvent"},
 		Custom: []func(*PropRun){c06Discipline, c06Replays},
 		Trusted: []string{"Tty contract: Drain wakes a pending Read, which then returns; Stop/Close return (assumed; the tty is outside the verified code)",
 			"a goroutine that is not blocked on a channel operation, the screen lock or the tty runs to completion (no other blocking primitives in the waited-for goroutines: checked syntactically for channel operations only)"},
 		Assume: []string{"level 'other': a sufficient discipline over the goroutines disengage waits for, not a proof over interleavings; bounded time is not quantified",
-			"after Fini: PollEvent returns nil at once by the C05 PollEvent contract and closed-channel semantics (assumed); 'further Screen calls do not panic' is not decided here"},
+			"after Fini: PollEvent looks at the stop channel first (discipline + C05 contract), closed-channel semantics assumed; finish sets the finished flag and Show/Sync are proved inert under it; 'further Screen calls do not panic' in general, and Resume after Fini, are not decided here"},
 	})
 	reg(&PropDef{
 		ID:    "C13",
@@ -145,7 +146,7 @@ func init() {
 		Level:  "proof",
 		Funcs: []string{"tcell.(*tScreen).EnablePaste", "tcell.(*tScreen).DisablePaste", "tcell.(*tScreen).EnableFocus", "tcell.(*tScreen).DisableFocus", "tcell.(*tScreen).DisableMouse", "tcell.(*tScreen).EnableMouse",
 			"tcell.(*tScreen).enableMouse", "tcell.(*tScreen).enablePasting", "tcell.(*tScreen).enableFocusReporting", "tcell.(*tScreen).engage"},
-		Custom: []func(*PropRun){c04Disengage, c04TtyLifecycle},
+		Custom: []func(*PropRun){c04Disengage, c04TtyLifecycle, c04SetterReplays},
 		Trusted: []string{"terminfo pairing of on/off capabilities (smcup/rmcup, smkx/rmkx, civis/cnorm, sgr0, op, smam/rmam) and the xterm private modes tcell hard-codes (1000/1002/1003/1006, 2004, 1004, title stack 22/23;2t, DECSCUSR, OSC 12/112) as the oracle of what 'off' means",
 			"Tty methods: assumed interface contracts (they return; Stop/Drain/NotifyResize touch no screen state)"},
 		Assume: []string{"disengage is evaluated with t.buffering = true so that its output is collected in t.buf (TPuts/writeString differ only in the destination they pass on)",
@@ -156,7 +157,7 @@ func init() {
 	reg(&PropDef{
 		ID:     "C09",
 		Level:  "other",
-		Funcs:  []string{"tcell.(*CellBuffer).SetContent", "tcell.(*CellBuffer).GetContent", "tcell.(*CellBuffer).Fill", "tcell.(*tScreen).encodeRune"},
+		Funcs:  []string{"tcell.cellWidth", "tcell.(*CellBuffer).SetContent", "tcell.(*CellBuffer).GetContent", "tcell.(*CellBuffer).Fill", "tcell.(*tScreen).encodeRune"},
 		Custom: []func(*PropRun){c09RuneWidth, c09Emit, c09Stream},
 		Trusted: []string{"go-runewidth's (*Condition).RuneWidth is executed from its source for the listed code points with no lookup table built (RUNEWIDTH_EASTASIAN unset / CreateLUT not called); its global DefaultCondition is what tcell calls"},
 		Assume: []string{"PARTIAL claim: decided is only that a primary rune that is a C0 control, DEL, a C1 control, U+200B-200F, U+2028-202E, U+FEFF, a surrogate or an invalid code point is stored with width 0 and handed out as a blank (chain: RuneWidth == 0 from the dependency's source; SetContent stores width = RuneWidth(main) - C08 contract; GetContent blanks width 0 and runes < ' ' - C08 contract), and that an unencodable rune never reaches the terminal raw (encodeRune, C17 contract)",
@@ -974,8 +975,64 @@ func (t *c06Tty) WindowSize() (WindowSize, error) { return WindowSize{Width: 80,
 		}
 	}`, n, n, call, what)) + tty
 	}
+	inert := replayTest("tcell", []string{"sync", "time", modPath + "/terminfo", "_ " + modPath + "/terminfo/base"}, `
+	ti, err := terminfo.LookupTerminfo("xterm")
+	if err != nil { fail("no xterm description: %v", err); return }
+	tty := &c06RecTty{wake: make(chan struct{}, 4)}
+	s, err := NewTerminfoScreenFromTtyTerminfo(tty, ti)
+	if err != nil { fail("new screen: %v", err); return }
+	if err := s.Init(); err != nil { fail("init: %v", err); return }
+	s.SetContent(0, 0, 'x', nil, StyleDefault)
+	s.Show()
+	within := func(what string, f func()) bool {
+		done := make(chan struct{})
+		go func() { f(); close(done) }()
+		select {
+		case <-done:
+			return true
+		case <-time.After(2 * time.Second):
+			fail("%s did not return within 2s (it holds the screen lock: every later call, Resume and Fini included, blocks too)", what)
+			return false
+		}
+	}
+	if err := s.Suspend(); err != nil { fail("suspend: %v", err); return }
+	n0 := tty.written()
+	s.SetContent(1, 0, 'y', nil, StyleDefault)
+	if !within("Show() while suspended", s.Show) || !within("Sync() while suspended", s.Sync) { return }
+	if n := tty.written(); n != n0 {
+		fail("while suspended, Show() and Sync() wrote %d bytes to the terminal that the next Fini (which returns early when not running) will not undo", n-n0)
+		return
+	}
+	if err := s.Resume(); err != nil { fail("resume: %v", err); return }
+	s.Show()
+	s.Fini()
+	n0 = tty.written()
+	s.SetContent(2, 0, 'z', nil, StyleDefault)
+	if !within("Show() after Fini", s.Show) || !within("Sync() after Fini", s.Sync) { return }
+	if n := tty.written(); n != n0 {
+		fail("after Fini(), Show() and Sync() wrote %d more bytes to the terminal: the screen is not inert", n-n0)
+		return
+	}`) + `
+type c06RecTty struct {
+	mu   sync.Mutex
+	n    int
+	wake chan struct{}
+}
+
+func (t *c06RecTty) written() int                      { t.mu.Lock(); defer t.mu.Unlock(); return t.n }
+func (t *c06RecTty) Read(p []byte) (int, error)       { <-t.wake; return 0, nil }
+func (t *c06RecTty) Write(p []byte) (int, error)      { t.mu.Lock(); t.n += len(p); t.mu.Unlock(); return len(p), nil }
+func (t *c06RecTty) Close() error                     { return nil }
+func (t *c06RecTty) Start() error                     { return nil }
+func (t *c06RecTty) Stop() error                      { return nil }
+func (t *c06RecTty) Drain() error                     { select { case t.wake <- struct{}{}: default: }; return nil }
+func (t *c06RecTty) NotifyResize(cb func())           {}
+func (t *c06RecTty) WindowSize() (WindowSize, error)  { return WindowSize{Width: 80, Height: 24}, nil }
+`
 	for _, g := range run.Groups {
 		switch {
+		case g.Name == "tcell.(*tScreen).finish/ensures#finished" || strings.HasPrefix(g.Name, "tcell.(*tScreen).Show/ensures#inert") || strings.HasPrefix(g.Name, "tcell.(*tScreen).Sync/ensures#inert"):
+			g.ReplayGo = inert
 		case strings.HasPrefix(g.Name, "tScreen.(*tScreen).scanInput/blocking#") && strings.HasSuffix(g.Name, "/stops-on-suspend"):
 			g.ReplayGo = scenario(15, "s.Suspend()", "Suspend() did not return within 2s: 15 unpolled keys fill the event queue, the main loop blocks delivering the 11th and disengage waits for it forever")
 		case strings.HasPrefix(g.Name, "tScreen.(*tScreen).inputLoop/blocking#") && strings.Contains(g.Name, "send:keychan") && strings.HasSuffix(g.Name, "/stops-on-fini"):
